@@ -169,9 +169,12 @@ pub fn gen_step(s: &mut Hub, rng: &mut Rng, ctx: &mut Ctx) -> Step {
     }
     // one more op kind than `Cfg::weights` has slots for
     const W_SET_DURATION: usize = N_OPS;
-    let mut w16 = [0u32; N_OPS + 1];
+    const W_SET_DIST: usize = N_OPS + 1;
+    let mut w16 = [0u32; N_OPS + 2];
     w16[..N_OPS].copy_from_slice(&w);
     w16[N_OPS] = s.cfg.w_set_duration;
+    // only once some epochs exist, so that an epoch created before the switch is still in its grace window
+    w16[N_OPS + 1] = if s.model.epochs.len() >= 2 { s.cfg.w_set_dist } else { 0 };
     let mut kind = rng.weighted(&w16);
     if kind == W_WITHDRAW && s.model.unbonds.is_empty() && rng.chance(4, 5) {
         kind = W_SWAP;
@@ -351,6 +354,10 @@ pub fn gen_step(s: &mut Hub, rng: &mut Rng, ctx: &mut Ctx) -> Step {
         W_SET_DURATION => {
             let by_owner = rng.chance(5, 6);
             Op::SetDuration { duration_ns: duration_class(rng, dur), by_owner }
+        }
+        W_SET_DIST => {
+            let by_owner = rng.chance(5, 6);
+            Op::SetDistAsset { asset: *rng.pick(&[1usize, 1, 2, 0]), by_owner }
         }
         W_SET_TAKE => {
             let by_owner = rng.chance(5, 6);
